@@ -926,7 +926,8 @@ func (fc *fnCtx) applyContract(cs *callSite, callee *ssa.Function, c *contract) 
 	if c.pure || (c.hasAssigns && len(c.assigns) == 0) {
 		// heap unchanged; the callee may still allocate
 	} else if c.hasAssigns {
-		keep := fmt.Sprintf("(and (< r %s) (not (= r 0)))", oldAC) // row 0 (nil) is no object: never preserved, never checked
+		keep := fmt.Sprintf("(< r %s)", oldAC)
+		nilAssign := false
 		for _, a := range c.assigns {
 			v, err := pre.term(a)
 			if err != nil {
@@ -938,6 +939,10 @@ func (fc *fnCtx) applyContract(cs *callSite, callee *ssa.Function, c *contract) 
 			case kIface:
 				keep = and(keep, fmt.Sprintf("(not (= r %s))", v.t[1]))
 			}
+			nilAssign = true
+		}
+		if nilAssign {
+			keep = fmt.Sprintf("(or (= r 0) %s)", keep) // an assigns entry that is nil designates nothing: row 0 is never havocked
 		}
 		fc.havocHeap("call", keep, true)
 	} else {
@@ -1096,7 +1101,7 @@ func (fc *fnCtx) invoke(cs *callSite) *val {
 	}
 	oldH := fc.curH.clone()
 	if c.hasAssigns {
-		keep := fmt.Sprintf("(and (< r %s) (not (= r 0)))", fc.curAC)
+		keep := fmt.Sprintf("(< r %s)", fc.curAC)
 		for _, a := range c.assigns {
 			v, err := pre.term(a)
 			if err != nil {
@@ -1110,6 +1115,7 @@ func (fc *fnCtx) invoke(cs *callSite) *val {
 			}
 		}
 		if len(c.assigns) > 0 {
+			keep = fmt.Sprintf("(or (= r 0) %s)", keep) // row 0 (nil) is never havocked by a frame
 			fc.havocHeap("call", keep, true)
 		}
 	} else {
